@@ -23,6 +23,8 @@ Rules are phrased over this canonical form so that behaviour-preserving respelli
      true for CONST -> that leaf continues with S (jump threading; the dead store goes)
  N17 `if any(C for t in xs): S` (S ends in return/raise) -> `for t in xs: if C: S`; as the last statement of a function
      `if not any(C for t in xs): S` -> `for t in xs: if C: return` then S
+ N19 a local bound once at the top of a function to a plain attribute chain whose attributes the function never assigns
+     (`registered = self.__registered_classes`) is replaced by the chain where it is read
  N18 a self-assignment `x = x` is dropped
  N6  `v = []` directly followed by `for t in xs: [if c:] v.append(e)` -> `v = [e for t in xs if c]`
 
@@ -139,9 +141,41 @@ class _Norm(ast.NodeTransformer):
         self._search_loops(n, n.body, True)
         self.generic_visit(n)
         self.fn_stack.pop()
+        self._propagate_chain_aliases(n)
         self._fold_blocks(n, n)
         self._propagate_block_temps(n)
         return n
+
+    @staticmethod
+    def _propagate_chain_aliases(fn):
+        """N19: a local bound once, in the function's top-level block, to a plain attribute chain (`reg = self.__registered`) whose
+        attributes are not assigned anywhere in the function, is replaced by that chain wherever it is read afterwards"""
+        import copy
+        stored_attrs = {n.attr for n in ast.walk(fn) if isinstance(n, ast.Attribute) and isinstance(n.ctx, (ast.Store, ast.Del))}
+        args = {a.arg for a in ast.walk(fn.args) if isinstance(a, ast.arg)}
+        for st in list(fn.body):
+            if not (isinstance(st, ast.Assign) and len(st.targets) == 1 and isinstance(st.targets[0], ast.Name)
+                    and isinstance(st.value, ast.Attribute) and _is_chain(st.value)):
+                continue
+            v = st.targets[0].id
+            chain_attrs = {n.attr for n in ast.walk(st.value) if isinstance(n, ast.Attribute)}
+            root = st.value
+            while isinstance(root, ast.Attribute):
+                root = root.value
+            if v in args or chain_attrs & stored_attrs or _captured(fn, v):
+                continue
+            stores = [n for n in ast.walk(fn) if isinstance(n, ast.Name) and n.id == v and not isinstance(n.ctx, ast.Load)]
+            root_stores = [n for n in ast.walk(fn) if isinstance(n, ast.Name) and n.id == root.id and not isinstance(n.ctx, ast.Load)]
+            if len(stores) != 1 or root_stores:
+                continue
+            loads = [n for n in ast.walk(fn) if isinstance(n, ast.Name) and n.id == v and isinstance(n.ctx, ast.Load)]
+            if not loads or any((getattr(n, 'lineno', 0), getattr(n, 'col_offset', 0)) <= (st.lineno, st.col_offset) for n in loads):
+                continue
+            for n in loads:
+                _replace(fn, n, ast.copy_location(copy.deepcopy(st.value), n))
+            fn.body.remove(st)
+            if not fn.body:
+                fn.body.append(ast.copy_location(ast.Pass(), st))
 
     @staticmethod
     def _blocks(fn):
